@@ -3,7 +3,7 @@
 args=$1; shift
 for p in "$@"; do
   f=$p; [ -d "$p" ] && f=$p/patch.diff
-  out=$(tools/mutcheck.sh $f $args 2>&1)
+  out=$("$(dirname "$0")/mutcheck.sh" $f $args 2>&1)
   n=$(echo "$out" | grep -cE "^   (sat|unknown)|^!!")
   if echo "$out" | grep -qE "PATCH FAILED|BUILD FAILED"; then echo "ERROR   $p: $(echo "$out" | tail -1)"; continue; fi
   if [ "$n" -gt 0 ]; then echo "CAUGHT  $p ($n): $(echo "$out" | grep -E "^   (sat|unknown)|^!!" | head -2 | awk '{print $2,$3,$4,$5,$6}' | tr '\n' ';')"; else echo "MISSED  $p"; fi
